@@ -115,10 +115,15 @@ def split_topic(t):
 
 def _dupflags(rng, ops):
     """some publishes arrive with DUP=1 (a client retransmission the broker sees for the first time): routed like any other"""
-    return [("pubd " + o[4:]) if o.startswith("pub ") and rng.random() < 0.2 else o for o in ops]
+    res = []
+    for o in ops:
+        k = rng.random()
+        # `wpub`: the message is a will, published through OnWillPublishWrapper (same routing decision)
+        res.append(("pubd " + o[4:]) if o.startswith("pub ") and k < 0.2 else ("wpub " + o[4:]) if o.startswith("pub ") and k < 0.35 else o)
+    return res
 
 def pred_route(ops, out, check_groups=False):
-    ops = [("pub " + o[5:]) if o.startswith("pubd ") else o for o in ops]
+    ops = [("pub " + o[5:]) if o.startswith(("pubd ", "wpub ")) else o for o in ops]
     """retained ⇒ every peer exactly once; non-retained, no shared subscription anywhere ⇒ exactly the peers holding ≥1 matching
     subscription, once each, never the local node, local delivery untouched (drop=0, options unchanged). With shared
     subscriptions: targets are distinct peers each holding a matching entry, every peer with a matching NON-shared entry is a
